@@ -164,8 +164,11 @@ def exc_violation(case, kind='exception', extra=None):
     et, ev, tb = sys.exc_info()
     repo = os.path.realpath(REPO) + os.sep
     verif = os.path.realpath(VERIF) + os.sep
+    fake = os.path.join(verif, 'mc', 'fakegdb') + os.sep
     for fr in reversed(traceback.extract_tb(tb)):
         f = os.path.realpath(fr.filename)
+        if f.startswith(fake):
+            continue     # the GDB model answering (e.g. gdb.MemoryError on a null dereference) is environment, like a library
         if f.startswith(repo):
             d = {'exception': '%s: %s' % (et.__name__, str(ev)[:300]), 'traceback': traceback.format_exc()[-1500:]}
             if extra:
